@@ -127,6 +127,10 @@ class EncoderSelector:
                         log.debug('Encoding timeout!')
                         continue
 
+                    except RuntimeError:  # E.g. a pattern encoder that would declare a one-option design variable
+                        log.debug('Encoder cannot encode these settings!')
+                        continue
+
                     # Get metrics
                     n_design_points = assignment_manager.encoder.get_n_design_points()
                     imputation_ratio = self._get_imp_ratio(
